@@ -7,7 +7,7 @@
    and of a finished path are never among them. *)
 From Coq Require Import ZArith List Bool Lia ZifyBool.
 From HV Require Import Base.Word Spec.Evm Spec.CallSpec Gen.GenOpcodes Gen.GenConsts Gen.GenCallMsg
-  Model.CallModel Model.CallHeapModel.
+  Model.CallModel Model.CallHeapModel Proofs.CallProofs.
 Import ListNotations.
 Open Scope Z_scope.
 
@@ -56,6 +56,22 @@ Definition agree_off (H H1 : heap) (hs : hstate) : Prop :=
 Definition path_ok (H H1 : heap) (hs : hstate) (p : hpath) : Prop :=
   let '(_, _, hs', _) := p in
   wf H1 hs' /\ forall r, owns hs' r -> owns hs r \/ (length H <= r)%nat.
+(* two reported paths hold no object in common *)
+Definition pdisj (p q : hpath) : Prop :=
+  let '(_, _, hp, _) := p in let '(_, _, hq, _) := q in forall r, owns hp r -> ~ owns hq r.
+Definition paths_ok (H H1 : heap) (hs : hstate) (ps : list hpath) : Prop :=
+  Forall (path_ok H H1 hs) ps /\ ForallOrdPairs pdisj ps.
+
+Lemma FOP_app : forall (A : Type) (R : A -> A -> Prop) a b,
+  ForallOrdPairs R a -> ForallOrdPairs R b -> (forall x y, In x a -> In y b -> R x y) ->
+  ForallOrdPairs R (a ++ b).
+Proof.
+  induction a as [|x a IH]; intros b Fa Fb C; cbn; [exact Fb|].
+  inversion Fa as [|? ? Hx Fa']; subst. constructor.
+  - apply Forall_app. split; [exact Hx|]. apply Forall_forall. intros y Hy. apply C; [left; reflexivity | exact Hy].
+  - apply IH; auto. intros x' y Hx' Hy. apply C; [right; exact Hx' | exact Hy].
+Qed.
+
 (* the holding paths, read out of heap [H] *)
 Definition out (H : heap) (ps : list hpath) : list mres := map (readout H) (filter holding ps).
 
@@ -63,7 +79,7 @@ Definition out (H : heap) (ps : list hpath) : list mres := map (readout H) (filt
    the path prefix holds under the valuation *)
 Definition Post (H : heap) (hs : hstate) (h : bool) (res : list hpath * heap) (expected : list mres) : Prop :=
   let '(ps, H1) := res in
-  (length H <= length H1)%nat /\ agree_off H H1 hs /\ Forall (path_ok H H1 hs) ps /\
+  (length H <= length H1)%nat /\ agree_off H H1 hs /\ paths_ok H H1 hs ps /\
   out H1 ps = (if h then expected else []).
 
 Lemma out_app : forall H a b, out H (a ++ b) = out H a ++ out H b.
@@ -104,8 +120,8 @@ Lemma Post_rebase : forall H hs H' hs' h res ex,
   (forall r, owns hs' r -> owns hs r \/ (length H <= r)%nat) ->
   Post H hs h res ex.
 Proof.
-  intros H hs H' hs' h [ps H1] ex (L & A & F & O) Hl Hag Hown. unfold Post.
-  split; [lia|]. split; [|split; [|exact O]].
+  intros H hs H' hs' h [ps H1] ex (L & A & [F D] & O) Hl Hag Hown. unfold Post.
+  split; [lia|]. split; [|split; [split; [|exact D]|exact O]].
   - intros r Hr Hn. rewrite A; [apply Hag; auto | lia | eapply notin_of; eauto].
   - eapply Forall_impl; [|exact F]. intros [[[tr r] hs1] lg] [W Ow]. split; [exact W|].
     intros x Hx. destruct (Ow x Hx) as [X|X]; [apply Hown; exact X | right; lia].
@@ -114,7 +130,7 @@ Qed.
 Lemma Post_skip : forall H hs h ex, h = false -> Post H hs h ([], H) ex.
 Proof.
   intros H hs h ex ->. unfold Post. split; [lia|]. split; [intros r _ _; reflexivity|].
-  split; [constructor | reflexivity].
+  split; [split; constructor | reflexivity].
 Qed.
 
 Lemma Post_skip_ext : forall H H' hs h ex, h = false ->
@@ -122,7 +138,14 @@ Lemma Post_skip_ext : forall H H' hs h ex, h = false ->
   Post H hs h ([], H') ex.
 Proof.
   intros H H' hs h ex -> L A. unfold Post. split; [lia|]. split; [intros r Hr _; apply A; exact Hr|].
-  split; [constructor | reflexivity].
+  split; [split; constructor | reflexivity].
+Qed.
+
+Lemma Post_skip_off : forall H H' hs h ex, h = false ->
+  (length H <= length H')%nat -> agree_off H H' hs -> Post H hs h ([], H') ex.
+Proof.
+  intros H H' hs h ex -> L A. unfold Post. split; [lia|]. split; [exact A|].
+  split; [split; constructor | reflexivity].
 Qed.
 
 (* ------------------------------------------------------------------ copies *)
@@ -198,7 +221,7 @@ Proof.
     pose proof (branch_copy_copied _ _ _ _ W Ebc) as C.
     assert (L1 : (length H <= length H1)%nat) by (rewrite (cp_len _ _ _ _ C); lia).
     specialize (HA H1 L1 (cp_old _ _ _ _ C)).
-    destruct (runA H1) as [pA H2]. destruct HA as (LA & AA & FA & OA).
+    destruct (runA H1) as [pA H2]. destruct HA as (LA & AA & [FA DA] & OA).
     assert (AG : agree_off H H2 hs).
     { intros r Hr Hn. rewrite AA by (auto; lia). apply (cp_old _ _ _ _ C). exact Hr. }
     assert (NB : forall r, owns hs r \/ (length H1 <= r)%nat -> notin r hsB).
@@ -213,8 +236,8 @@ Proof.
       - destruct (cp_wf _ _ _ _ C). destruct Hr as [->|[->| ->]]; assumption.
       - pose proof (cp_fresh _ _ _ _ C r Hr). destruct W. unfold notin. repeat split; lia. }
     specialize (HB hsB H2 eq_refl WB SB (cp_fresh _ _ _ _ C) ltac:(lia) AG).
-    destruct (runB hsB H2) as [pB H3]. destruct HB as (LB & AB & FB & OB).
-    unfold Post. split; [lia|]. split; [|split].
+    destruct (runB hsB H2) as [pB H3]. destruct HB as (LB & AB & [FB DB] & OB).
+    unfold Post. split; [lia|]. split; [|split; [split|]].
     + intros r Hr Hn. rewrite AB.
       * apply AG; auto.
       * lia.
@@ -229,6 +252,13 @@ Proof.
         -- intros x Hx. destruct (O1 x Hx) as [X|X]; [left; exact X | right; lia].
       * eapply Forall_impl; [|exact FB]. intros [[[tr r] hs1] lg] [W1 O1]. split; [exact W1|].
         intros x Hx. destruct (O1 x Hx) as [X|X]; [right; apply (cp_fresh _ _ _ _ C); exact X | right; lia].
+    + apply FOP_app; [exact DA | exact DB |].
+      intros [[[trp rp] hp] lgp] [[[trq rq] hq] lgq] Hp Hq r Op Oq.
+      rewrite Forall_forall in FA, FB.
+      destruct (FA _ Hp) as [Wp Ownp]. destruct (FB _ Hq) as [Wq Ownq].
+      destruct (Ownq r Oq) as [X|X].
+      * destruct (NB r (Ownp r Op)) as (N1 & N2 & N3). destruct X as [X|[X|X]]; congruence.
+      * destruct Wp. destruct Op as [->|[->| ->]]; lia.
     + rewrite out_app, OB.
       rewrite (out_stable H1 H2 H3 hs pA FA).
       * rewrite OA. destruct h, cA, cB; cbn; rewrite ?app_nil_r; reflexivity.
@@ -666,3 +696,348 @@ Proof.
   - intros E. rewrite E. reflexivity.
 Qed.
 (* STAGE5 *)
+(* ------------------------------------------------------------------ SEVM.create *)
+Section CreatePost.
+Variables (ob : list Z) (new_addr : Z) (k : hk) (kp : kpure) (Rd : list nat)
+          (continue : hcont) (contp : mstate -> list Z -> lastsub -> list mres).
+Hypothesis Hcont : cont_hyp_h k kp Rd continue contp.
+
+Definition cbp_create (orig : mstate) : kpure :=
+  fun r st3 lg3 =>
+    let '(data, has_error) := output_of r in
+    flat_map (KP kp lg3)
+      (if create_success has_error
+       then contp (m_set_code st3 new_addr data) (m_after_create ob new_addr (Some (true, has_error, data))) (Some (true, has_error, data))
+       else contp (restore_create orig st3) (m_after_create ob 0 (Some (true, has_error, data))) (Some (true, has_error, data))).
+
+Lemma create_back_spec : forall H0 hs0 H1a snap Hc,
+  wf H0 hs0 -> RdOk Rd H0 hs0 -> Kspec Rd H0 k kp -> copied H0 hs0 H1a snap ->
+  length Hc = length H1a -> (forall r, notin r hs0 -> hget Hc r = hget H1a r) ->
+  Kspec ([h_code snap; h_storage snap; h_transient snap] ++ Rd) Hc
+        (h_create_back continue ob new_addr snap) (cbp_create (habs H0 hs0)).
+Proof.
+  intros H0 hs0 H1a snap Hc W R K C Lc Ac tr3 r hs3 lg3 H3 L A W3 N.
+  unfold h_create_back, cbp_create. destruct (output_of r) as [data has_error].
+  assert (RdIn : forall x, In x Rd -> In x ([h_code snap; h_storage snap; h_transient snap] ++ Rd)).
+  { intros x Hx. apply in_or_app. right. exact Hx. }
+  assert (L01 : (length H0 <= length H1a)%nat) by (rewrite (cp_len _ _ _ _ C); lia).
+  assert (ARd : forall x, In x Rd -> hget H3 x = hget H0 x).
+  { intros x Hx. rewrite A by (apply RdIn; exact Hx). destruct (R x Hx) as [Lx Nx].
+    rewrite Ac by exact Nx. apply (cp_old _ _ _ _ C). exact Lx. }
+  assert (NS : forall x, owns snap x -> notin x hs0).
+  { intros x Hx. pose proof (cp_fresh _ _ _ _ C x Hx). destruct W. unfold notin. repeat split; lia. }
+  unfold create_success. destruct has_error; cbn [negb].
+  - (* creation failed: restore *)
+    destruct (restore_create_h snap H3 hs3) as [H4 hs4] eqn:Er.
+    destruct (cp_wf _ _ _ _ C) as [Sc Ss St _ _ _].
+    apply restore_create_spec in Er as (L4 & A4 & W4 & F4 & S4); [|lia|lia].
+    apply (Post_rebase H3 hs3 H4 hs4); [| lia | intros x Hx _; apply A4; exact Hx | intros x Hx; right; apply F4; exact Hx].
+    replace (restore_create (habs H0 hs0) (habs H3 hs3)) with (habs H4 hs4).
+    + apply Hcont; [exact W4| |].
+      * intros x Hx. destruct (R x Hx) as [Lx _]. split; [lia|].
+        pose proof (F4 (h_code hs4) (or_introl eq_refl)).
+        pose proof (F4 (h_storage hs4) (or_intror (or_introl eq_refl))).
+        pose proof (F4 (h_transient hs4) (or_intror (or_intror eq_refl))).
+        unfold notin. repeat split; lia.
+      * eapply Kspec_mono; [exact K | lia |]. intros x Hx. rewrite A4 by (destruct (R x Hx); lia). apply ARd. exact Hx.
+    + rewrite S4. unfold restore_create, create_restores_code, create_restores_storage, create_restores_transient_storage, create_restores_balance.
+      rewrite !A by (cbn; auto).
+      rewrite !Ac by (apply NS; unfold owns; auto).
+      rewrite (cp_c _ _ _ _ C), (cp_s _ _ _ _ C), (cp_t _ _ _ _ C), (cp_bal _ _ _ _ C). reflexivity.
+  - (* success: the code is installed in the objects of the init frame *)
+    assert (R3 : RdOk Rd H3 hs3).
+    { intros x Hx. destruct (R x Hx) as [Lx _]. split; [lia|]. apply N. apply RdIn. exact Hx. }
+    assert (K3 : Kspec Rd H3 k kp) by (eapply Kspec_mono; [exact K | lia | exact ARd]).
+    destruct (step_own H3 hs3 (h_set_code H3 hs3 new_addr data) Rd k kp) as (W' & R' & K' & Back); auto.
+    + apply own_mut_len_set_code.
+    + intros x Hx. apply own_mut_off_set_code. exact Hx.
+    + apply Back. rewrite <- habs_set_code by exact W3. apply Hcont; assumption.
+Qed.
+End CreatePost.
+
+Lemma h_create_post : forall feas v initcode c hs ob tr lg H k kp Rd run runp continue contp,
+  run_hyp run runp -> cont_hyp_h k kp Rd continue contp ->
+  wf H hs -> RdOk Rd H hs -> Kspec Rd H k kp ->
+  Post H hs (holds tr) (h_create feas v initcode c hs ob tr lg H k run continue)
+       (flat_map (KP kp lg) (m_create v initcode c (habs H hs) ob runp contp)).
+Proof.
+  intros feas v initcode c hs ob tr lg H k kp Rd run runp continue contp Hrun Hcont W R K.
+  unfold h_create, m_create. cbv zeta.
+  destruct (create_static_check && c_static c).
+  { rewrite KP_single. apply (Kspec_here Rd); auto. }
+  change (m_cnt (habs H hs)) with (h_cnt hs).
+  remember (h_set_cnt hs (h_cnt hs + 1)) as hs0 eqn:Ehs0.
+  assert (S0 : m_set_cnt (habs H hs) (h_cnt hs + 1) = habs H hs0) by (subst hs0; reflexivity).
+  rewrite S0.
+  remember (habs H hs0) as st0 eqn:Est0.
+  remember (new_address (h_cnt hs + 1)) as new_addr eqn:Enew.
+  assert (W0 : wf H hs0) by (subst hs0; destruct W; constructor; assumption).
+  assert (R0 : RdOk Rd H hs0) by (subst hs0; exact R).
+  apply (Post_rebase H hs H hs0); [| lia | auto | intros x Hx; left; subst hs0; exact Hx].
+  rewrite flat_map_app.
+  remember (negb (v =? 0) && insufficient (balance_of st0 (c_this c)) v) as cB eqn:EcB.
+  match goal with
+  | |- context [mkCtx ?a ?b ?d ?e ?f ?g ?h] => remember (mkCtx a b d e f g h) as msg eqn:Emsg
+  end.
+  remember (if in_code st0 new_addr then true
+            else transfer_cond (m_new_account st0 new_addr) (c_this c) v) as cA eqn:EcA.
+  apply h_fork_post' with (cA := cA) (cB := cB).
+  - exact W0.
+  - intros E. apply explore_false in E. rewrite holds_cons in E. exact E.
+  - (* the main path *)
+    intros H1 L1 A1.
+    destruct (ext_facts H H1 hs0 Rd k kp W0 R0 K L1 A1) as (W1 & S1 & R1 & K1).
+    rewrite <- Est0 in S1.
+    destruct (in_code st0 new_addr).
+    + (* address collision: push 0 and go on *)
+      subst cA. cbn [andb]. rewrite <- S1. apply Hcont; assumption.
+    + unfold create_backup_before_setup. cbv iota.
+      destruct (snapshot_create H1 hs0) as [Ha snap] eqn:Es.
+      pose proof (snapshot_create_copied _ _ _ _ W1 Es) as C.
+      remember (h_new_account Ha hs0 new_addr) as Hc eqn:EHc.
+      assert (La : (length H1 <= length Ha)%nat) by (rewrite (cp_len _ _ _ _ C); lia).
+      assert (Wa : wf Ha hs0) by (eapply wf_grow; eauto).
+      assert (Sa : habs Ha hs0 = st0).
+      { rewrite <- S1. apply habs_agree. intros x Hx. apply (cp_old _ _ _ _ C).
+        destruct W1. destruct Hx as [->|[->| ->]]; assumption. }
+      assert (Lc : length Hc = length Ha) by (subst Hc; apply own_mut_len_new_account).
+      assert (Ac : forall r, notin r hs0 -> hget Hc r = hget Ha r) by (subst Hc; intros r Hr; apply own_mut_off_new_account; exact Hr).
+      assert (Sc : habs Hc hs0 = m_new_account st0 new_addr) by (subst Hc; rewrite habs_new_account by exact Wa; rewrite Sa; reflexivity).
+      rewrite Sc. rewrite <- EcA. rewrite <- (holds_cons false cA tr).
+      destruct (explore feas ((false, cA) :: tr)) eqn:Ee.
+      * unfold transfer_value. rewrite <- EcA.
+        remember (transfer_force (m_new_account st0 new_addr) (c_this c) new_addr v) as st2 eqn:Est2.
+        assert (Main : Post H1 hs0 (holds ((false, cA) :: tr))
+                  (h_sub_frame msg (h_values hs0 st2) ((false, cA) :: tr) lg Hc run
+                     (h_create_back continue ob new_addr snap))
+                  (flat_map (KP kp lg)
+                     (flat_map
+                        (fun sub : mres =>
+                           let '(r, st3, lg0) := sub in
+                           let '(data, has_error) := output_of r in
+                           map (addlog lg0)
+                             (if create_success has_error
+                              then contp (m_set_code st3 new_addr data) (m_after_create ob new_addr (Some (true, has_error, data))) (Some (true, has_error, data))
+                              else contp (restore_create st0 st3) (m_after_create ob 0 (Some (true, has_error, data))) (Some (true, has_error, data))))
+                        (sub_frame msg st2 runp)))).
+        { apply (Post_rebase H1 hs0 Hc (h_values hs0 st2));
+            [| lia | intros x Hx Nx; rewrite Ac by exact Nx; apply (cp_old _ _ _ _ C); exact Hx | intros x Hx; left; exact Hx].
+          rewrite flat_map_flat_map.
+          rewrite (flat_map_ext _ (KP (cbp_create ob new_addr kp contp st0) lg)).
+          2:{ intros [[r st3] lg0].
+              change (KP (cbp_create ob new_addr kp contp st0) lg (r, st3, lg0))
+                with (cbp_create ob new_addr kp contp st0 r st3 (lg ++ lg0)).
+              unfold cbp_create. destruct (output_of r) as [data he].
+              rewrite KP_addlog. reflexivity. }
+          assert (S2 : habs Hc (h_values hs0 st2) = st2).
+          { subst st2. rewrite <- Sc. apply habs_transfer. }
+          pose proof (h_sub_frame_post msg (h_values hs0 st2) ((false, cA) :: tr) lg Hc run runp
+                   (h_create_back continue ob new_addr snap) (cbp_create ob new_addr kp contp st0)
+                   ([h_code snap; h_storage snap; h_transient snap] ++ Rd)) as P.
+          rewrite S2 in P. apply P; clear P.
+          - exact Hrun.
+          - eapply wf_grow with (H := Ha); [|lia]. destruct Wa. constructor; assumption.
+          - intros x Hx. apply in_app_or in Hx as [Hx|Hx].
+            + destruct (cp_wf _ _ _ _ C) as [Scc Ss St _ _ _].
+              pose proof (cp_fresh _ _ _ _ C) as Fr.
+              pose proof (Fr (h_code snap) (or_introl eq_refl)).
+              pose proof (Fr (h_storage snap) (or_intror (or_introl eq_refl))).
+              pose proof (Fr (h_transient snap) (or_intror (or_intror eq_refl))).
+              destruct W1. unfold notin. cbn [h_values h_code h_storage h_transient].
+              cbn in Hx. destruct Hx as [<-|[<-|[<-|[]]]]; (split; [lia | repeat split; lia]).
+            + destruct (R1 x Hx) as [Lx Nx]. split; [lia | exact Nx].
+          - rewrite <- S1. exact (create_back_spec ob new_addr k kp Rd continue contp Hcont H1 hs0 Ha snap Hc W1 R1 K1 C Lc Ac). }
+        destruct cA.
+        -- exact Main.
+        -- eapply Post_false_irrel. exact Main.
+      * (* not explored (InfeasiblePath): the account set-up already happened, in place, on the
+           objects of this Exec only *)
+        apply Post_skip_off; [apply explore_false in Ee; exact Ee | lia |].
+        intros r Hr Nr. rewrite Ac by exact Nr. apply (cp_old _ _ _ _ C). exact Hr.
+  - (* the insufficient-funds branch *)
+    intros hsF H2 _ WF SF FF L2 A2.
+    destruct (later_facts H H2 hs0 hsF Rd k kp W0 R0 K FF L2 A2) as (RF & KF).
+    rewrite <- (holds_cons true cB tr). rewrite <- Est0 in SF. rewrite <- SF.
+    assert (Main : Post H2 hsF (holds ((true, cB) :: tr))
+              (continue hsF (m_after_create ob 0 (Some (true, true, []))) (Some (true, true, [])) ((true, cB) :: tr) lg H2)
+              (flat_map (KP kp lg) (contp (habs H2 hsF) (m_after_create ob 0 (Some (true, true, []))) (Some (true, true, [])))))
+      by (apply Hcont; assumption).
+    destruct cB; [exact Main | eapply Post_false_irrel; exact Main].
+  - intros E. rewrite EcA in E. destruct (in_code st0 new_addr); [discriminate E|].
+    unfold transfer_value. rewrite E. reflexivity.
+  - intros E. rewrite E. reflexivity.
+Qed.
+(* STAGE6 *)
+(* ------------------------------------------------------------------ the exploration of a script *)
+Lemma Post_side : forall H hs h c res ex ex',
+  Post H hs (c && h) res ex -> (h = true -> c = true /\ ex = ex') -> Post H hs h res ex'.
+Proof.
+  intros H hs h c res ex ex' P E. destruct h.
+  - destruct (E eq_refl) as [-> ->]. exact P.
+  - rewrite andb_false_r in P. eapply Post_false_irrel. exact P.
+Qed.
+
+Theorem hexec_post : forall feas s c hs ob l tr lg H k kp Rd,
+  wf H hs -> RdOk Rd H hs -> Kspec Rd H k kp ->
+  Post H hs (holds tr) (hexec feas s c hs ob l tr lg H k)
+       (flat_map (KP kp lg) (mexec s c (habs H hs) ob l)).
+Proof.
+  intros feas. induction s; intros c hs ob l tr lg H k0 kp Rd W R K; cbn [hexec mexec].
+  - (* SEnd *)
+    rewrite KP_single. apply (Kspec_here Rd); auto.
+  - (* SSstore *)
+    destruct (sstore_static_check && c_static c).
+    + rewrite KP_single. apply (Kspec_here Rd); auto.
+    + destruct (step_own H hs (h_sstore H hs (c_this c) k v) Rd k0 kp) as (W' & R' & K' & Back); auto.
+      * apply own_mut_len_sstore.
+      * intros x Hx. apply own_mut_off_sstore. exact Hx.
+      * apply Back. rewrite <- habs_sstore by exact W. eapply IHs; eassumption.
+  - (* STstore *)
+    destruct (sstore_static_check && c_static c).
+    + rewrite KP_single. apply (Kspec_here Rd); auto.
+    + destruct (step_own H hs (h_tstore H hs (c_this c) k v) Rd k0 kp) as (W' & R' & K' & Back); auto.
+      * apply own_mut_len_tstore.
+      * intros x Hx. apply own_mut_off_tstore. exact Hx.
+      * apply Back. rewrite <- habs_tstore by exact W. eapply IHs; eassumption.
+  - (* SLog *)
+    destruct (log_static_check && c_static c).
+    + rewrite KP_single. apply (Kspec_here Rd); auto.
+    + rewrite KP_addlog. eapply IHs; eassumption.
+  - (* SObserve *)
+    eapply IHs; eassumption.
+  - (* SRetCopy *)
+    destruct (retcopy_guard size && retcopy_oob off size (blen (returndata l))).
+    + rewrite KP_single. apply (Kspec_here Rd); auto.
+    + destruct (retcopy_copy_guard size); eapply IHs; eassumption.
+  - (* SIf: JUMPI on a word of the input *)
+    remember (negb (cond =? 0)) as t eqn:Et.
+    destruct (explore feas ((true, t) :: tr)) eqn:ET; destruct (explore feas ((false, negb t) :: tr)) eqn:EF; cbn [andb].
+    + (* both sides followed: the false side first, on the current objects *)
+      assert (E : flat_map (KP kp lg) (if cond =? 0 then mexec s2 c (habs H hs) ob l else mexec s1 c (habs H hs) ob l)
+                  = (if negb t then flat_map (KP kp lg) (mexec s2 c (habs H hs) ob l) else [])
+                    ++ (if t then flat_map (KP kp lg) (mexec s1 c (habs H hs) ob l) else [])).
+      { subst t. destruct (cond =? 0); cbn [negb]; rewrite ?app_nil_r; reflexivity. }
+      rewrite E. apply h_fork_post.
+      * exact W.
+      * intros X. discriminate X.
+      * intros H1 L1 A1.
+        destruct (ext_facts H H1 hs Rd k0 kp W R K L1 A1) as (W1 & S1 & R1 & K1).
+        rewrite <- (holds_cons false (negb t) tr). rewrite <- S1. eapply IHs2; eassumption.
+      * intros hsT H2 _ WT ST FT L2 A2.
+        destruct (later_facts H H2 hs hsT Rd k0 kp W R K FT L2 A2) as (RT & KT).
+        rewrite <- (holds_cons true t tr). rewrite <- ST. eapply IHs1; eassumption.
+    + (* only the true side *)
+      apply explore_false in EF. rewrite holds_cons in EF.
+      apply (Post_side H hs (holds tr) t _ (flat_map (KP kp lg) (mexec s1 c (habs H hs) ob l))).
+      * rewrite <- (holds_cons true t tr). eapply IHs1; eassumption.
+      * intros Hh. rewrite Hh, andb_true_r in EF. apply negb_false_iff in EF. split; [exact EF|].
+        subst t. destruct (cond =? 0); [discriminate EF | reflexivity].
+    + (* only the false side *)
+      apply explore_false in ET. rewrite holds_cons in ET.
+      apply (Post_side H hs (holds tr) (negb t) _ (flat_map (KP kp lg) (mexec s2 c (habs H hs) ob l))).
+      * rewrite <- (holds_cons false (negb t) tr). eapply IHs2; eassumption.
+      * intros Hh. rewrite Hh, andb_true_r in ET. split; [rewrite ET; reflexivity|].
+        subst t. destruct (cond =? 0); [reflexivity | discriminate ET].
+    + (* neither: the prefix does not hold *)
+      apply explore_false in ET. apply explore_false in EF. rewrite holds_cons in ET, EF.
+      apply Post_skip. destruct (holds tr); [|reflexivity]. destruct t; cbn in ET, EF; congruence.
+  - (* SCall *)
+    apply (h_call_post feas kd to v rsz c hs ob tr lg H k0 kp Rd _ (fun c' st' => mexec s1 c' st' [] None)
+             _ (fun st' ob' l' => mexec s2 c st' ob' l')); auto.
+    + intros c' hs' tr' lg' H' k' kp' Rd' W' R' K'. eapply IHs1; eassumption.
+    + intros hs' ob' l' tr' lg' H' W' R' K'. eapply IHs2; eassumption.
+  - (* SCreate *)
+    apply (h_create_post feas v initcode c hs ob tr lg H k0 kp Rd _ (fun c' st' => mexec s1 c' st' [] None)
+             _ (fun st' ob' l' => mexec s2 c st' ob' l')); auto.
+    + intros c' hs' tr' lg' H' k' kp' Rd' W' R' K'. eapply IHs1; eassumption.
+    + intros hs' ob' l' tr' lg' H' W' R' K'. eapply IHs2; eassumption.
+Qed.
+
+(* ------------------------------------------------------------------ whole transactions *)
+Definition kp_top : kpure := fun r st lg => [(r, st, lg)].
+
+Lemma k_top_spec : forall H, Kspec [] H k_top kp_top.
+Proof.
+  intros H tr r hs lg H' L A W N. unfold k_top, kp_top, Post.
+  split; [lia|]. split; [intros x _ _; reflexivity|]. split.
+  - split; [|constructor; constructor].
+    constructor; [|constructor]. split; [exact W | intros x Hx; left; exact Hx].
+  - unfold out. cbn [filter holding]. destruct (holds tr); reflexivity.
+Qed.
+
+Lemma KP_top_id : forall ms, flat_map (KP kp_top []) ms = ms.
+Proof. induction ms as [|[[r st] lg] ms IH]; cbn; [reflexivity|]. rewrite IH. reflexivity. Qed.
+
+(* ISOLATION OF THE PATHS: whatever the feasibility oracle, the holding paths of the
+   exploration, read out of the final heap, are exactly -- in number, order and content --
+   the results of the state-passing model *)
+Theorem explored_is_mframe : forall feas s c w ctr,
+  explored feas s c w ctr = mframe s c (mstate_of w ctr).
+Proof.
+  intros feas s c w ctr. unfold explored, hframe, mframe.
+  assert (W : wf (heap_of w) (hstate_of w ctr)).
+  { constructor; cbn; lia. }
+  pose proof (h_sub_frame_post c (hstate_of w ctr) [] [] (heap_of w)
+                (fun c' hs' tr' lg' H' k' => hexec feas s c' hs' [] None tr' lg' H' k')
+                (fun c' st' => mexec s c' st' [] None) k_top kp_top []) as P.
+  destruct (h_sub_frame c (hstate_of w ctr) [] [] (heap_of w)
+              (fun c' hs' tr' lg' H' k' => hexec feas s c' hs' [] None tr' lg' H' k') k_top) as [ps Hf].
+  destruct P as (_ & _ & _ & O).
+  - intros c' hs' tr' lg' H' k' kp' Rd' W' R' K'. eapply hexec_post; eassumption.
+  - exact W.
+  - intros x [].
+  - apply k_top_spec.
+  - cbn [holds forallb] in O. unfold out in O. rewrite O. rewrite KP_top_id.
+    destruct w; reflexivity.
+Qed.
+
+(* every explored path (holding or not) ends with references to three distinct objects of the
+   final heap, and no two explored paths hold an object in common *)
+Theorem explored_paths_separate : forall feas s c w ctr ps Hf,
+  hframe feas s c (hstate_of w ctr) (heap_of w) = (ps, Hf) ->
+  Forall (fun p : hpath => let '(_, _, hs, _) := p in wf Hf hs) ps /\ ForallOrdPairs pdisj ps.
+Proof.
+  intros feas s c w ctr ps Hf E. unfold hframe in E.
+  assert (W : wf (heap_of w) (hstate_of w ctr)).
+  { constructor; cbn; lia. }
+  pose proof (h_sub_frame_post c (hstate_of w ctr) [] [] (heap_of w)
+                (fun c' hs' tr' lg' H' k' => hexec feas s c' hs' [] None tr' lg' H' k')
+                (fun c' st' => mexec s c' st' [] None) k_top kp_top []) as P.
+  rewrite E in P. destruct P as (_ & _ & [F D] & _).
+  - intros c' hs' tr' lg' H' k' kp' Rd' W' R' K'. eapply hexec_post; eassumption.
+  - exact W.
+  - intros x [].
+  - apply k_top_spec.
+  - split; [|exact D]. eapply Forall_impl; [|exact F]. intros [[[tr r] hs] lg] [Wp _]. exact Wp.
+Qed.
+
+(* ------------------------------------------------------------------ statement shapes used by Props/C09.v *)
+
+
+Theorem explored_refines : forall feas s c w ctr r ctr' lg,
+  supported s = true -> c_depth c <= MAX_DEPTH ->
+  sframe s c w ctr = (r, ctr', lg) -> clean lg = true ->
+  explored feas s c w ctr <> [] /\
+  Forall (fun m : mres => R m (r, ctr', lg)) (explored feas s c w ctr).
+Proof.
+  intros feas s c w ctr r ctr' lg Hsup Hd Hs Hcl. rewrite explored_is_mframe.
+  apply mframe_refines_supported; assumption.
+Qed.
+
+Theorem explored_paths_separate_explicit : forall feas s c w ctr ps Hf,
+  hframe feas s c (hstate_of w ctr) (heap_of w) = (ps, Hf) ->
+  Forall (fun p : hpath =>
+            let '(_, _, hs, _) := p in
+            (h_code hs < length Hf)%nat /\ (h_storage hs < length Hf)%nat /\ (h_transient hs < length Hf)%nat /\
+            h_code hs <> h_storage hs /\ h_code hs <> h_transient hs /\ h_storage hs <> h_transient hs) ps /\
+  ForallOrdPairs
+    (fun p q : hpath =>
+       let '(_, _, hp, _) := p in
+       let '(_, _, hq, _) := q in
+       forall r, r = h_code hp \/ r = h_storage hp \/ r = h_transient hp ->
+                 ~ (r = h_code hq \/ r = h_storage hq \/ r = h_transient hq)) ps.
+Proof.
+  intros feas s c w ctr ps Hf E. destruct (explored_paths_separate _ _ _ _ _ _ _ E) as [F D]. split.
+  - eapply Forall_impl; [|exact F]. intros [[[tr r] hs] lg] []. repeat split; assumption.
+  - exact D.
+Qed.
